@@ -504,6 +504,14 @@ def runModel (ts : List String) : String :=
     match rmInput ts with
     | some (pre, pcs, ids) => rmShow (rmObs (mFinal pre pcs ids))
     | none => "bad-case"
+  | "api" :: _ =>
+    -- closers, then (after) or interleaved with (during) a writer and a reader of the component's tables
+    match after "when" ts, natAfter "ms" ts with
+    | w :: _, some ms =>
+      let pcs := [KPc.close, .close, .close, .write, .read]
+      let s := if w == "during" then lcgSched ms 5 12 ++ [0, 1, 2, 3, 4] else [0, 1, 2, 3, 4]
+      s!"panics {(run (kProg false) s (kInit pcs)).sh.panics} first - called 0"
+    | _, _ => "bad-case"
   | "mgr" :: _ =>
     -- two clean handlers: ResourceBase.onClose and the component's own onClose
     match mgrInput ts with
@@ -562,6 +570,10 @@ def runHolds (caseToks obsToks : List String) : String :=
     match rmInput caseToks, rmParse obsToks with
     | some _, some o => holdsM2 o
     | _, _ => false
+  | "api" :: _ =>
+    match obsToks with
+    | ["panics", p, "first", _, "called", _] => (match p.toNat? with | some p => holdsK p | none => false)
+    | _ => false
   | "mgr" :: _ =>
     match mgrInput caseToks, mgrParse obsToks with
     | some _, some o => holdsM o
